@@ -315,13 +315,37 @@ Definition appended (acc x : response) (b : bt) : response :=
   {| rs_code := rs_code acc; rs_block1 := rs_block1 acc; rs_block2 := Some b; rs_etag := rs_etag acc;
      rs_payload := rs_payload acc ++ rs_payload x; rs_maxexp := rs_maxexp acc; rs_observe := rs_observe acc |}.
 
+(* the translated guard of _append_response_block, spelled out: valid payload size, then block2.start = assembled length (an OFFSET comparison:
+   a block is only ever appended where the assembled bytes end), then equal ETags *)
+Definition append_inline (assembled next_block : response) : M response :=
+  match rs_block2 next_block with
+  | None => Raise AttributeError
+  | Some (n, m, szx) =>
+    valid <- bt_is_valid_for_payload_size n m szx (blen (rs_payload next_block)) ;;
+    if negb valid then Raise UnexpectedBlock2 else
+    start <- bt_start n m szx ;;
+    if negb (start =? blen (rs_payload assembled)) then Raise NotImplementedError else
+    if negb (etag_eqb (rs_etag next_block) (rs_etag assembled)) then Raise ResourceChanged else
+    Ok {| rs_code := rs_code assembled; rs_block1 := rs_block1 assembled; rs_block2 := Some (n, m, szx);
+          rs_etag := rs_etag assembled; rs_payload := rs_payload assembled ++ rs_payload next_block;
+          rs_maxexp := rs_maxexp assembled; rs_observe := rs_observe assembled |}
+  end.
+Lemma append_response_block_eq acc x : append_response_block acc x = append_inline acc x.
+Proof.
+  unfold append_response_block, append_inline, append_response_block_guard. destruct (rs_block2 x) as [[[n m] szx]|]; [|reflexivity].
+  destruct (bt_is_valid_for_payload_size n m szx (blen (rs_payload x))) as [v|]; [|reflexivity]. cbn [bind].
+  destruct (negb v); [reflexivity|]. rewrite bt_start_spec. cbn [bind].
+  destruct (negb (n * bsize (Z.min szx 6) =? blen (rs_payload acc))); [reflexivity|].
+  destruct (negb (etag_eqb (rs_etag x) (rs_etag acc))); reflexivity.
+Qed.
+
 Lemma append_ok acc x n m szx acc' :
   rs_block2 x = Some (n, m, szx) -> append_response_block acc x = Ok acc' ->
   n * bsize (Z.min szx 6) = blen (rs_payload acc) /\ etag_eqb (rs_etag x) (rs_etag acc) = true /\
   (szx <> 7 -> if m then blen (rs_payload x) = bsize (Z.min szx 6) else blen (rs_payload x) <= bsize (Z.min szx 6)) /\
   acc' = appended acc x (n, m, szx).
 Proof.
-  intros Hb. unfold append_response_block. rewrite Hb.
+  intros Hb. rewrite append_response_block_eq. unfold append_inline. rewrite Hb.
   unfold bt_is_valid_for_payload_size, bt_is_bert, bt_start, bt_size, bind. fold (bsize (Z.min szx 6)).
   destruct (szx =? 7) eqn:E7.
   - destruct m.
@@ -469,7 +493,7 @@ Lemma block2_server_errors_lemma {S} (serve : S -> request -> S * sresult) f s t
      block2_loop serve (Datatypes.S f) s t acc mbse = (s1, [rq], Err ResourceChanged)).
 Proof.
   intros Hg Hs Hb Hszx valid. cbn [block2_loop]. rewrite Hg, Hs, Hb.
-  unfold append_response_block. rewrite Hb. rewrite bt_is_valid_spec by lia. cbn [bind]. fold valid.
+  rewrite append_response_block_eq. unfold append_inline. rewrite Hb. rewrite bt_is_valid_spec by lia. cbn [bind]. fold valid.
   rewrite bt_start_spec. cbn [bind]. replace (Z.min szx 6) with szx by lia.
   repeat split.
   - intros ->. reflexivity.
@@ -587,7 +611,7 @@ Section Ref.
     assert (Hp : 0 <= pol (s_policy2 scf) k 6) by (apply pol_nonneg; [apply (h_pol2 _ _ _ Hh)|lia]).
     assert (Hs3 : 0 <= s3 <= s2) by (subst s3; lia). pose proof (bsize_pos s3 ltac:(lia)) as Hsz3.
     assert (Hdiv3 : got / bsize s3 * bsize s3 = got) by (apply (div_mul_bsize got j szx s3); [lia|reflexivity]).
-    cbn [rs_block2]. unfold append_response_block. cbn [rs_block2 rs_payload rs_etag].
+    cbn [rs_block2]. rewrite append_response_block_eq. unfold append_inline. cbn [rs_block2 rs_payload rs_etag].
     rewrite bt_is_valid_spec by lia. rewrite bt_start_spec. replace (Z.min s3 6) with s3 by lia. cbn [bind].
     rewrite Hdiv3, Hlen, Z.eqb_refl. rewrite Het, etag_eqb_refl. cbn [negb].
     destruct (got + bsize s3 <? blen rep) eqn:Emore.
